@@ -8,6 +8,7 @@ use std::panic::{catch_unwind, AssertUnwindSafe};
 
 thread_local! {
     static LAST_PANIC: RefCell<Option<String>> = const { RefCell::new(None) };
+    static IN_GUARD: std::cell::Cell<u32> = const { std::cell::Cell::new(0) };
 }
 
 pub fn install_panic_hook() {
@@ -20,13 +21,20 @@ pub fn install_panic_hook() {
         } else {
             "<non-string panic>".to_string()
         };
+        // a panic outside `guarded` is a bug of the machinery itself: say so
+        if IN_GUARD.with(|g| g.get()) == 0 {
+            eprintln!("machinery panic: {msg} @ {loc}");
+        }
         LAST_PANIC.with(|p| *p.borrow_mut() = Some(format!("{msg} @ {loc}")));
     }));
 }
 
 pub fn guarded<T>(f: impl FnOnce() -> T) -> Result<T, String> {
     LAST_PANIC.with(|p| *p.borrow_mut() = None);
-    match catch_unwind(AssertUnwindSafe(f)) {
+    IN_GUARD.with(|g| g.set(g.get() + 1));
+    let r = catch_unwind(AssertUnwindSafe(f));
+    IN_GUARD.with(|g| g.set(g.get() - 1));
+    match r {
         Ok(v) => Ok(v),
         Err(_) => Err(LAST_PANIC.with(|p| p.borrow_mut().take()).unwrap_or_else(|| "<panic>".into())),
     }
